@@ -1,5 +1,6 @@
 """The scripted host application: parser slots with variables, custom functions and
 listeners whose behaviour is a JSON script (so it goes into replay files verbatim)."""
+import threading
 from collections import Counter
 
 from . import canon as C
@@ -131,7 +132,7 @@ class Slot(object):
             n = slot.next_inv('f:' + name)
             act = acts[n] if n < len(acts) else acts[-1]
             if world.logging:
-                world.log.append([slot.idx, 'fn', name, C.canon(list(args))])
+                world.log.append([slot.idx, 'fn', name, C.canon(list(args)), world.depth])
             return world.act(slot, act, 'fn', name, args, None, None)
         fn.__name__ = 'custom_' + name
         self.parser.set_function(name, fn)
@@ -154,7 +155,7 @@ class Slot(object):
                     payload = cell_payload(args[0])
                 else:
                     payload = [cell_payload(args[0]), cell_payload(args[1])]
-                world.log.append([slot.idx, event, i, payload])
+                world.log.append([slot.idx, event, i, payload, world.depth])
             world.act(slot, act, event, key, args[:-1], setter, listener)
         listener.__name__ = 'listener_' + key
         self.listener_fns[key] = listener
@@ -179,7 +180,7 @@ class World(object):
         self.log = []
         self.fired = Counter()
         self.idle_frame = Counter()
-        self.depth = 0
+        self.depths = {}       # nesting depth of evaluations, per caller thread
         self.max_depth = 0
         self.built = 0
         self.taps = {}
@@ -188,14 +189,20 @@ class World(object):
     def evaluate(self, slot_id, formula):
         slot = self.slots[slot_id]
         slot.frames.append(Counter())
-        self.depth += 1
-        if self.depth > self.max_depth:
-            self.max_depth = self.depth
+        tid = threading.get_ident()
+        d = self.depths.get(tid, 0) + 1
+        self.depths[tid] = d
+        if d > self.max_depth:
+            self.max_depth = d
         try:
             return slot.parser.parse(formula)
         finally:
-            self.depth -= 1
+            self.depths[tid] = d - 1
             slot.frames.pop()
+
+    @property
+    def depth(self):
+        return self.depths.get(threading.get_ident(), 0)
 
     def host_snapshot(self):
         return C.dumps([[C.canon(o) for o in s.host_objects] for s in self.slots if s is not None])
